@@ -303,6 +303,15 @@ def reduceByStructuredModulus (a multiple : List α) : Option (List α) :=
             else structReduceLoop F a shiftPoly chunk tail numChunks windowStart
                    (resize F (a.drop windowStart) (chunk + tail))
 
+/-- stage 2 of `fast_reduce`: `if intermediate_remainder.degree() > 4 * modulus.degree()` reduce by the structured
+    multiple; `stage2` = the literal `4` -/
+def fastReduceStage2 (stage2 : Nat) (ir m : List α) : Option (List α) :=
+  if degree F ir > (stage2 : Int) * degree F m then
+    match structuredMultiple F m with
+    | none => none
+    | some sm => reduceByStructuredModulus F ir sm
+  else some ir
+
 /-- `fast_reduce(modulus)`; `cutoff` = `FAST_REDUCE_CUTOFF_THRESHOLD`, `stage2` = the literal `4` in
     `intermediate_remainder.degree() > 4 * modulus.degree()` -/
 def fastReduce (cutoff stage2 : Nat) (a m : List α) : Option (List α) :=
@@ -315,13 +324,7 @@ def fastReduce (cutoff stage2 : Nat) (a m : List α) : Option (List α) :=
       match reduceByNttFriendlyModulus F N a sh tail with
       | none => none
       | some ir =>
-        let ir2 :=
-          if degree F ir > (stage2 : Int) * degree F m then
-            match structuredMultiple F m with
-            | none => none
-            | some sm => reduceByStructuredModulus F ir sm
-          else some ir
-        match ir2 with
+        match fastReduceStage2 F stage2 ir m with
         | none => none
         | some r => rem F r m
 
@@ -355,31 +358,36 @@ def newtonStandard (f : List α) : Nat → List α → List α
     let g2 := scalarMul F g (F.ofNat 2)
     newtonStandard f k (sub F g2 s)
 
-/-- the NTT-domain rounds; `fn` = the first `cur` entries of the Rust buffer `f_ntt` (the rest of the buffer is zero) -/
+/-- "migrate to a larger domain as necessary": if the tracked degree no longer fits, `intt` on the old domain and
+    `ntt` on the next power of two (`lde`); `fn` = the first `cur` entries of the Rust buffer `f_ntt` (the rest of the
+    buffer is zero) -/
+def newtonGrow (full : Nat) (fdeg' : Int) (cur : Nat) (fn : List α) : Option (Nat × List α) :=
+  if fdeg'.toNat ≥ cur then
+    let next := nextPowerOfTwo (1 + fdeg'.toNat)
+    if full < next then none                                -- `&mut v[..new_domain_length]`
+    else
+      match inttChecked N fn with
+      | none => none
+      | some c =>
+        match nttChecked N (resize F c next) with
+        | none => none
+        | some e => some (next, e)
+  else some (cur, fn)
+
+/-- the point-wise Newton step `ff ← 2·ff − ff·ff·dd` against every `full/cur`-th entry of `ntt(self)` -/
+def newtonPointwise (selfNtt : List α) (full cur : Nat) (fn : List α) : List α :=
+  List.zipWith (fun ff d => F.sub (F.mul (F.ofNat 2) ff) (F.mul (F.mul ff ff) d)) fn (stepBy (full / cur) selfNtt)
+
+/-- the NTT-domain rounds -/
 def newtonNttLoop (selfNtt : List α) (full : Nat) (selfDeg : Int) :
     Nat → Int → Nat → List α → Option (Nat × List α)
   | 0, _, cur, fn => some (cur, fn)
   | k + 1, fdeg, cur, fn =>
-    let fdeg' := 2 * fdeg + selfDeg
-    let grown : Option (Nat × List α) :=
-      if fdeg'.toNat ≥ cur then
-        let next := nextPowerOfTwo (1 + fdeg'.toNat)
-        if full < next then none                            -- `&mut v[..new_domain_length]`
-        else
-          match inttChecked N fn with
-          | none => none
-          | some c =>
-            match nttChecked N (resize F c next) with
-            | none => none
-            | some e => some (next, e)
-      else some (cur, fn)
-    match grown with
+    match newtonGrow F N full (2 * fdeg + selfDeg) cur fn with
     | none => none
     | some (cur', fn') =>
-      if cur' = 0 then none else                            -- `step_by(0)`
-      let dd := stepBy (full / cur') selfNtt
-      let fn'' := List.zipWith (fun ff d => F.sub (F.mul (F.ofNat 2) ff) (F.mul (F.mul ff ff) d)) fn' dd
-      newtonNttLoop selfNtt full selfDeg k fdeg' cur' fn''                -- `dd` has `cur'` entries
+      if cur' = 0 then none                                 -- `step_by(0)`
+      else newtonNttLoop selfNtt full selfDeg k (2 * fdeg + selfDeg) cur' (newtonPointwise F selfNtt full cur' fn')
 
 /-- `formal_power_series_inverse_newton(precision)`; `cutoff` = `FORMAL_POWER_SERIES_INVERSE_CUTOFF` -/
 def fpsInverseNewton (cutoff : Nat) (f : List α) (precision : Nat) : Option (List α) :=
@@ -454,39 +462,45 @@ def batchInversion (l : List χ) : Option (List χ) :=
     let pp := prefixProducts FX l FX.one
     some (batchBack FX (l.zip pp.1) (FX.inv pp.2)).1
 
+/-- "Incompleteness workaround: manually check whether 0 is a root of the divisor": removes the factor `X` once
+    from both operands; `none` = the `assert!` on the dividend's constant term fails -/
+def cleanDivideStrip (a d : List β) : Option (List β × List β) :=
+  match d with
+  | d0 :: dt =>
+    if FB.isZero d0 then
+      match a with
+      | [] => some ([], dt)
+      | a0 :: at' => if FB.isZero a0 then some (at', dt) else none      -- `assert!`
+    else some (a, d)
+  | [] => some (a, d)
+
+/-- the evaluation-domain part of `clean_divide`: scale by the extension-field offset, NTT, point-wise division
+    (long division instead if the divisor vanishes on the coset), INTT, unscale, unlift -/
+def cleanDivideNtt (a1 d1 : List β) : Option (List β) :=
+  let aX := scaleG FX.one FX.mul (fun c pw => FX.mul (E.lift c) pw) a1 E.offset
+  let dX := scaleG FX.one FX.mul (fun c pw => FX.mul (E.lift c) pw) d1 E.offset
+  let order := nextPowerOfTwo (degSucc FB a1)
+  match nttChecked NX (resize FX aX order), nttChecked NX (resize FX dX order) with
+  | some aE, some dE =>
+    if dE.any FX.isZero then div FB a1 d1                -- the divisor vanishes on the coset: long division
+    else
+      match batchInversion FX dE with
+      | none => none
+      | some inv =>
+        match inttChecked NX (List.zipWith FX.mul aE inv) with
+        | none => none
+        | some q =>
+          let qs := scale FX q (FX.inv E.offset)
+          qs.mapM E.unlift                               -- `c.unlift().unwrap()`
+  | _, _ => none
+
 /-- `clean_divide(divisor)`; `cutoff` = `CLEAN_DIVIDE_CUTOFF_THRESHOLD` (512 in production builds) -/
 def cleanDivide (cutoff : Nat) (a d : List β) : Option (List β) :=
   if degree FB d < (cutoff : Int) then div FB a d
   else
-    -- remove the root 0 once
-    let stripped : Option (List β × List β) :=
-      match d with
-      | d0 :: dt =>
-        if FB.isZero d0 then
-          match a with
-          | [] => some ([], dt)
-          | a0 :: at' => if FB.isZero a0 then some (at', dt) else none      -- `assert!`
-        else some (a, d)
-      | [] => some (a, d)
-    match stripped with
+    match cleanDivideStrip FB a d with
     | none => none
-    | some (a1, d1) =>
-      let aX := scaleG FX.one FX.mul (fun c pw => FX.mul (E.lift c) pw) a1 E.offset
-      let dX := scaleG FX.one FX.mul (fun c pw => FX.mul (E.lift c) pw) d1 E.offset
-      let order := nextPowerOfTwo (degSucc FB a1)
-      match nttChecked NX (resize FX aX order), nttChecked NX (resize FX dX order) with
-      | some aE, some dE =>
-        if dE.any FX.isZero then div FB a1 d1                -- the divisor vanishes on the coset: long division
-        else
-          match batchInversion FX dE with
-          | none => none
-          | some inv =>
-            match inttChecked NX (List.zipWith FX.mul aE inv) with
-            | none => none
-            | some q =>
-              let qs := scale FX q (FX.inv E.offset)
-              qs.mapM E.unlift                               -- `c.unlift().unwrap()`
-      | _, _ => none
+    | some (a1, d1) => cleanDivideNtt FB FX E NX a1 d1
 
 end clean
 
